@@ -9,7 +9,7 @@ import syncgen
 import txflow
 import vlib
 
-MON = {"c12": "c12_monitor", "c02": "c02_monitor maxRequestedBlocks"}
+MON = {"c12": "c12_monitor", "c12gate": "c12_gate_monitor UntrustedHeaderDelta", "c02": "c02_monitor maxRequestedBlocks"}
 
 
 def is_untrusted(o):
@@ -60,7 +60,8 @@ def keyfn(rec):
     ops = rec.get("ops", [])
     step = rec.get("step", 0)
     opn = ops[step][0] if 0 <= step < len(ops) else "?"
-    return "%s:%s:%s" % (rec.get("suite"), rec.get("checker"), opn)
+    code = (rec.get("expected") or [0])[0] if rec.get("checker") not in ("model", "tworun") else 0
+    return "%s:%s:%s:%s" % (rec.get("suite"), rec.get("checker"), code, opn)
 
 
 SPEC = {
